@@ -41,6 +41,51 @@ func (w *ammWorld) backing(tag string, before, after *poolSnap) {
 
 func init() {
 	families["ammrt"] = func(rng *Rng, n int, out *Out, replay string) {
+		// directed opening: few, valuable units — a pool emptied down to a handful of units and then filled again by
+		// swaps at fee rate 1 (everything sent stays in the pool), so that one unit backs ~10^23 of each token; a
+		// newcomer adds a few base units (the units calculation floors to 0) and removes whatever it was given
+		for _, left := range []int64{4, 1, int64(2 + rng.Intn(7))} {
+			w := newAmmWorld(rng, out, 6, -1)
+			w.fundAll()
+			sym := ammTokens[rng.Intn(len(ammTokens))]
+			w.opCreate(w.users[0], sym, new(big.Int).Set(pow18), new(big.Int).Set(pow18))
+			p := w.pool(sym)
+			if p == nil {
+				continue
+			}
+			w.opRmu(w.users[0], sym, new(big.Int).Sub(p.PoolUnits.BigInt(), big.NewInt(left)))
+			setFee := func(f *big.Int) {
+				sp := clptypes.SwapFeeParams{DefaultSwapFeeRate: decRaw(f)}
+				w.app.ClpKeeper.SetSwapFeeParams(w.ctx, &sp)
+				w.cfg("fee " + f.String())
+			}
+			setFee(new(big.Int).Set(pow18))
+			big24 := new(big.Int).Mul(pow18, big.NewInt(1000000))
+			w.opSwap(w.users[1], "rowan", sym, big24, big.NewInt(0))
+			w.opSwap(w.users[1], sym, "rowan", big24, big.NewInt(0))
+			setFee(new(big.Int).Quo(new(big.Int).Mul(pow18, big.NewInt(3)), big.NewInt(1000)))
+			for i, amts := range [][2]int64{{1, 1}, {1, 0}, {0, 2}, {3, 3}} {
+				u := w.users[2+i]
+				s0 := w.snap(sym)
+				if s0 == nil {
+					break
+				}
+				bn, be := w.bal(u, "rowan"), w.bal(u, sym)
+				nAmt, eAmt := big.NewInt(amts[0]), big.NewInt(amts[1])
+				w.opAdd(u, sym, nAmt, eAmt)
+				w.backing("add.tiny", s0, w.snap(sym))
+				lp, err := w.app.ClpKeeper.GetLiquidityProvider(w.ctx, sym, u.String())
+				if err != nil || lp.LiquidityProviderUnits.IsZero() {
+					continue
+				}
+				s1 := w.snap(sym)
+				w.opRmu(u, sym, lp.LiquidityProviderUnits.BigInt())
+				w.backing("remove.tiny", s1, w.snap(sym))
+				n2 := new(big.Int).Sub(w.bal(u, "rowan"), new(big.Int).Sub(bn, nAmt))
+				e2 := new(big.Int).Sub(w.bal(u, sym), new(big.Int).Sub(be, eAmt))
+				out.Emit(fmt.Sprintf("chk c04.addremove tag=add.remove.tiny 0 %s %s %s %s %s %s %s %s", w.configuredFee("rowan"), w.configuredFee(sym), s0.R, s0.A, nAmt, eAmt, n2, e2), "true", "chk.addremove", false)
+			}
+		}
 		for done := 0; done < n; {
 			w := newAmmWorld(rng, out, 6, -1)
 			w.fundAll()
